@@ -45,12 +45,29 @@ CONFIGS = {
         node={"cer_timeout": 3, "cea_timeout": 2}),
     "no_apps": dict(
         peers=[{"name": "peer1.verif.example"}], apps=[], node={"cer_timeout": 6, "cea_timeout": 6}),
+    "acct_only_app": dict(
+        peers=[{"name": "peer1.verif.example"}],
+        apps=[{"tag": "c3", "id": 3, "auth": False, "acct": True, "peers": ["peer1.verif.example"]}],
+        node={}),
     "three_peers_app_on_other_peer": dict(
         peers=[{"name": "peer1.verif.example"}, {"name": "peer2.verif.example"}, {"name": "peer3.verif.example"}],
         apps=[{"tag": "a4", "id": 4, "auth": True, "peers": ["peer2.verif.example"]}],
         node={"cer_timeout": 60, "cea_timeout": 1}),
 }
 PEER = "peer1.verif.example"
+
+
+def parse_cerx(letter):
+    """CERx|a=1,2|c=3|va=4|vc=5 -> four id lists"""
+    d = {"a": [], "c": [], "va": [], "vc": []}
+    for part in letter.split("|")[1:]:
+        k, v = part.split("=")
+        d[k] = [int(x) for x in v.split(",") if x]
+    return d["a"], d["c"], d["va"], d["vc"]
+
+
+def cerx(a=(), c=(), va=(), vc=()):
+    return "CERx|" + "|".join(f"{k}={','.join(map(str, v))}" for k, v in (("a", a), ("c", c), ("va", va), ("vc", vc)))
 
 
 def shards(tier, seed):
@@ -62,6 +79,7 @@ def shards(tier, seed):
     for i in range(4 if tier == "quick" else 12):
         out.append({"name": f"rand{i}", "kind": "random", "n": 250 if tier == "quick" else 3000})
     out.append({"name": "timing", "kind": "timing"})
+    out.append({"name": "apps", "kind": "apps"})
     return out
 
 
@@ -84,6 +102,8 @@ class Case:
         self.peer_cfg = self.node.peers[PEER]
         self.auth_ids = sorted(a.application_id for a in self.node.applications if a.is_auth_application)
         self.acct_ids = sorted(a.application_id for a in self.node.applications if a.is_acct_application)
+        mine = [a["id"] for a in cfg["apps"] if PEER in a["peers"]]
+        self.req_app = mine[0] if mine else 4
         # an inbound connection awaiting its CER belongs to no peer yet: the node-level timeout applies
         self.cer_timeout = self.node.cer_timeout
         self.cea_timeout = self.peer_cfg.cea_timeout or self.node.cea_timeout
@@ -203,6 +223,10 @@ class Case:
         auth = self.auth_ids or [4]
         if letter == "CERk":
             p.send(M.cer(PEER, REALM, auth=auth, acct=self.acct_ids, hbh=hbh, e2e=e2e), letter)
+        elif letter.startswith("CERx"):
+            au, ac, vau, vac = parse_cerx(letter)
+            vs = [(10415, x, None) for x in vau] + [(10415, None, x) for x in vac]
+            p.send(M.cer(PEER, REALM, auth=au, acct=ac, vendor_apps=vs, hbh=hbh, e2e=e2e), letter)
         elif letter == "CERu":
             p.send(M.cer("stranger.verif.example", REALM, auth=auth, hbh=hbh, e2e=e2e), letter)
         elif letter == "CERn":
@@ -222,7 +246,7 @@ class Case:
         elif letter == "DPA":
             p.send(M.dpa(PEER, REALM, hbh=hbh, e2e=e2e), letter)
         elif letter == "REQ":
-            p.send(M.ccr(PEER, REALM, REALM, app=4, hbh=hbh, e2e=e2e), letter)
+            p.send(M.ccr(PEER, REALM, REALM, app=self.req_app, hbh=hbh, e2e=e2e), letter)
         elif letter == "ANS":
             p.send(M.cca(PEER, REALM, app=4, hbh=hbh, e2e=e2e), letter)
         return hbh, e2e
@@ -244,7 +268,8 @@ class Case:
         deliv = self.deliveries(ev)
         self.trace.append((letter, st0, [repr(f) for f in frames], len(deliv), closed))
         self.judge(letter, ids, frames, deliv, closed)
-        self.transitions.add((st0, letter.rstrip("0123456789") if letter.startswith("ADV") else letter, self.state))
+        self.transitions.add((st0, letter.rstrip("0123456789") if letter.startswith("ADV") else
+                              ("CERx" if letter.startswith("CERx") else letter), self.state))
         if self.state in ("await_cer", "await_cea", "rejected"):
             self.pre_ready_routing_check()
 
@@ -285,7 +310,7 @@ class Case:
         if st == "await_cer":
             if is_adv:
                 return self.judge_deadline(frames, deliv, closed, self.cer_timeout, "cer")
-            if letter in ("CERk", "CERr", "CERn", "CERu"):
+            if letter in ("CERk", "CERr", "CERn", "CERu") or letter.startswith("CERx"):
                 if deliv:
                     self.witness("cer.delivered_to_application", {})
                 if len(frames) != 1 or frames[0].h.code != 257 or frames[0].is_request:
@@ -297,7 +322,15 @@ class Case:
                     self.witness("cea.identifiers", {"frame": repr(f), "ids": ids})
                 self.check_ce_content(f, "cea")
                 common = bool(self.auth_ids or self.acct_ids)  # CERk advertises exactly the node's ids
-                if letter == "CERu":
+                if letter.startswith("CERx"):
+                    # "shares an application": same id advertised in the same role (auth / accounting), plainly
+                    # or inside Vendor-Specific-Application-Id; the relay id in either plain list makes a relay
+                    au, ac, vau, vac = parse_cerx(letter)
+                    shared = (set(self.auth_ids) & (set(au) | set(vau))) or (set(self.acct_ids) & (set(ac) | set(vac)))
+                    relay = 0xffffffff in au or 0xffffffff in ac
+                    want, nxt = (2001, "ready") if (shared or relay) else (5010, "rejected")
+                    letter = "CERx"
+                elif letter == "CERu":
                     want, nxt = 3010, "closed"
                 elif letter == "CERn":
                     want, nxt = 5010, "rejected"
@@ -467,10 +500,35 @@ def run_shard(spec):
             script = []
             for _ in range(d):
                 l = rng.choice(LETTERS)
+                if l == "CERn" and rng.random() < 0.5:
+                    pool = [3, 4, 999, 998]
+                    l = cerx(**{k: rng.sample(pool, rng.randrange(0, 3)) for k in ("a", "c", "va", "vc")})
                 if l == "ADV" and rng.random() < 0.7:
                     l = "ADV" + str(rng.choice([1, 1, 2, 3, 4, 5, 7, 10]))
                 script.append(l)
             run.one(rng.choice(cfgs), rng.choice(["in", "out"]), script)
+    elif spec["kind"] == "apps":
+        # which advertised application ids count as shared: every placement of the node's own ids and foreign
+        # ids over the four places a CER can carry them, for every configuration
+        for cfg in cfgs:
+            c = CONFIGS[cfg]
+            ids = sorted({a["id"] for a in c["apps"]} | {4, 3, 999})
+            places = []
+            for x in ids + [0xffffffff]:
+                for k in ("a", "c", "va", "vc"):
+                    if x == 0xffffffff and k in ("va", "vc"):
+                        continue
+                    places.append({k: [x]})
+            for x in ids:
+                for y in ids:
+                    places.append({"a": [x], "c": [y]})
+                    places.append({"va": [x], "vc": [y]})
+                    places.append({"a": [x, 999], "vc": [y]})
+            places.append({})
+            for pl in places:
+                for tail in ((), ("REQ",), ("DWR",)):
+                    run.one(cfg, "in", (cerx(**pl),) + tail)
+                    run.cov["apps_cases"] = run.cov.get("apps_cases", 0) + 1
     else:
         # directed timing: ignored traffic just before the deadline, advance to exactly / past the timeout
         for cfg in cfgs:
